@@ -1060,18 +1060,18 @@ class SimOracle(object):
                 self.cls("pool-waited")
                 self.serve_order_check(p, c)
         else:
-            robbed = (note is not None and note.kind == "poolpreempt" and note.src == pl) or \
-                     (c.completion is not None and c.completion[0] == "preempted-from")
-            want = 0 if robbed else c.base
-            if c.completion is not None and c.completion[0] == "preempted-from" and not robbed:
-                want = c.base
+            # c.base is what it held when it called, lowered to what was left if a preemption took its
+            # holding while this call was in progress. (A PREEMPTED notice may also be a late one, for a
+            # robbery that happened before this call; what the process acquired since then is its own.)
+            robbed = c.completion is not None and c.completion[0] == "preempted-from"
+            want = c.base
             if blocked:
                 self.cls("pool-acquire-cut-short")
             if held_now != want:
                 self.viol("C07", "C07/rollback/%s" % ("preempted-elsewhere" if ret == PREEMPTED else "interrupted"),
                           "p%d: %s(%s, %d) returned %d, now holds %d, held %d before the call%s"
-                          % (p.pid, c.name, pl, c.n, ret, held_now, c.base,
-                             " (robbed of everything)" if robbed else ""))
+                          % (p.pid, c.name, pl, c.n, ret, held_now, c.base0,
+                             " (and was robbed of everything while it waited)" if robbed else ""))
             p.pool[pl] = held_now
 
     ret_ppre = ret_pacq
